@@ -156,7 +156,9 @@ def _classify_pos_write_base(f, store, stmt):
             # guard: v <= len(self) - self._pos   (either spelling) raising before
             for s in own_walk(f.node):
                 if isinstance(s, ast.If) and s.lineno < stmt.lineno and G.exits(s.body) and isinstance(s.test, ast.Compare):
-                    txt = ast.unparse(s.test)
+                    import copy as _cp
+                    _al, _Sub = _arith_aliases(f)
+                    txt = ast.unparse(_Sub().visit(_cp.deepcopy(s.test)))
                     if v in txt and 'len(self)' in txt and '_pos' in txt and isinstance(s.test.ops[0], (ast.Gt, ast.GtE)):
                         neg = any(G.test_is_negative(d, v) for s2 in own_walk(f.node) if isinstance(s2, ast.If) and s2.lineno < stmt.lineno for d in G.disjuncts(s2.test))
                         return 'bounded-increment' if neg else 'increment-no-lower-bound'
@@ -195,7 +197,7 @@ def _classify_pos_write_base(f, store, stmt):
             lo = hi = False
             for s in own_walk(f.node):
                 if isinstance(s, ast.If) and s.lineno < stmt.lineno and G.exits(s.body) and isinstance(s.body[-1], ast.Raise):
-                    for d in G.disjuncts(s.test):
+                    for d in G.disjuncts(G.expand(f, s.test, {k: v for k, v in G.simple_aliases(f).items() if k != val.id})):
                         if G.test_is_negative(d, val.id):
                             lo = True
                         if isinstance(d, ast.Compare) and len(d.ops) == 1 and isinstance(d.left, ast.Name) and d.left.id == val.id \
@@ -223,7 +225,7 @@ def _classify_pos_write_base(f, store, stmt):
             lo = hi = False
             for s in own_walk(f.node):
                 if isinstance(s, ast.If) and s.lineno < stmt.lineno and G.exits(s.body) and isinstance(s.body[-1], ast.Raise):
-                    for d in G.disjuncts(s.test):
+                    for d in G.disjuncts(G.expand(f, s.test, {k: v for k, v in G.simple_aliases(f).items() if k != l.id})):
                         if G.test_is_negative(d, l.id):
                             lo = True
                         if isinstance(d, ast.Compare) and len(d.ops) == 1 and ast.unparse(d.left) == l.id and isinstance(d.ops[0], ast.Gt) and 'len(self)' in ast.unparse(d.comparators[0]):
@@ -359,12 +361,25 @@ def _checked_after(f, stmt):
                 after = b[b.index(stmt) + 1:]
                 if blk is not f.node and any(isinstance(y, ast.Return) for y in after):
                     return False
-    for s in own_walk(f.node):
-        if isinstance(s, ast.If) and s.lineno > stmt.lineno and isinstance(s.test, ast.Compare) and '_pos' in ast.unparse(s.test.left) \
-                and isinstance(s.test.ops[0], ast.Gt) and 'len(self)' in ast.unparse(s.test.comparators[0]):
-            restores = [x for x in s.body if isinstance(x, ast.Assign) and ast.unparse(x.targets[0]).endswith('._pos') and isinstance(x.value, ast.Name)]
-            if restores and isinstance(s.body[-1], ast.Raise):
-                return True
+    def restores_then_raises(stmts):
+        rs = [x for x in stmts if isinstance(x, ast.Assign) and ast.unparse(x.targets[0]).endswith('._pos') and isinstance(x.value, ast.Name)]
+        return bool(rs) and bool(stmts) and isinstance(stmts[-1], ast.Raise)
+    for blk in own_walk(f.node):
+        for fld in ('body', 'orelse', 'finalbody'):
+            lst = getattr(blk, fld, None)
+            if not isinstance(lst, list):
+                continue
+            for i, s in enumerate(lst):
+                if not (isinstance(s, ast.If) and s.lineno > stmt.lineno):
+                    continue
+                t = G.canon_truth(s.test)
+                if not (isinstance(t, ast.Compare) and len(t.ops) == 1 and '_pos' in ast.unparse(t.left) and 'len(self)' in ast.unparse(t.comparators[0])):
+                    continue
+                if isinstance(t.ops[0], ast.Gt) and restores_then_raises(s.body):
+                    return True
+                # the other way round: `if self._pos <= len(self): return value` and the restore + raise follow
+                if isinstance(t.ops[0], ast.LtE) and G.exits(s.body) and not G.raises_in(s.body) and restores_then_raises((s.orelse or []) + lst[i + 1:]):
+                    return True
     return False
 
 
